@@ -29,8 +29,21 @@
     allocation returns a block the ownership model allows") for the public `LLFree::get`, every
     path, under every interleaving: the block is aligned and none of its frames was held.
 
-  PARTIAL: for the upper level (tree counters, reservations) and for partial frees of huge
-  allocations panic-freedom under every interleaving is not a theorem. Explored by the trace co-simulation (preemption-bounded DFS, random schedules, freeze
+  * `conc_public_api_no_panic` — **every interleaving of any number of threads at the public
+    interface**: threads run arbitrary lists of valid public calls (`get` of any order, class and
+    slot, targeted or not, on every path — local reservation, sync, reserve-or-steal search,
+    global steal, steal/demote of another slot —, `put` of held blocks at their allocation order,
+    `drain`) from any state satisfying the upper invariant; in every state of every schedule no
+    thread has trapped: `Unreserve failed`, `unreserve invalid class`, the counter assertions of
+    `Tree::put`/`LocalTree::put`, the bit-field setter bounds, `No locals for class`, `Invalid
+    class`, the `unwrap`s and the subtraction in `reserve_or_steal`, the zero divisor of the tree
+    search and all lower-level roll-back sites are unreachable (`Proofs/ConcUpper*.lean`: the
+    lower protocol tolerates exactly the upper-level messages, the upper protocol exactly the
+    lower-level ones, so a trapped thread would contradict one of them). The only way a thread
+    of the model can die is an index outside the metadata buffers (C18).
+
+  PARTIAL: for partial frees of huge allocations (K1, refuted) and `change_tree` under
+  interleavings panic-freedom is not a theorem. Explored by the trace co-simulation (preemption-bounded DFS, random schedules, freeze
   experiments), with panic capture and the "free of a held block succeeded" oracle; the event
   trace of every explored schedule is replayed on the Lean interleaving semantics.
 -/
@@ -41,6 +54,7 @@ import LLFreeV.Proofs.UpperInit
 import LLFreeV.Proofs.OwnThreads
 import LLFreeV.Proofs.OwnLowerThreads
 import LLFreeV.Proofs.OwnUpperThreads
+import LLFreeV.Proofs.ConcUpperThreads
 namespace LLFree.C03
 open LLFree
 
@@ -133,5 +147,14 @@ theorem conc_lower_put_of_held_succeeds (g : Geom) (ok : GeomOk16 g) (gh : Gh) (
     held by the calling thread — nor by any other, by the disjointness invariant (C01). -/
 theorem conc_successful_get_allowed (c : Cfg) (ok : GeomOk16 c.geom) (gh : Gh) (frame : Option Nat) (r : Request) :
     SafeL false c.geom (UGetPost c.geom gh r.order) gh (get c frame r) := get_L c ok gh frame r
+
+/-- **No call of the public interface panics, in any interleaving** (valid parameters, frees at
+    the allocation order): a thread of the model can only die by an index outside the buffers. -/
+theorem conc_public_api_no_panic (c : Cfg) (ok : CfgOk c) (H : Nat → Nat) (m : Mem) (inv : UpperInv0 c H m)
+    (n : Nat) (cmds : Nat → List UCmd) (hvalid : ∀ k, ∀ x ∈ cmds k, x.valid c) (sched : List Nat) (hsched : ∀ k ∈ sched, k < n)
+    (k : Nat) (hk : k < n) (s : String)
+    (hd : ((concRun sched (m, fun k => Th.at (runU c (cmds k) ⟨[], []⟩))).2 k).step
+      (concRun sched (m, fun k => Th.at (runU c (cmds k) ⟨[], []⟩))).1 = .dead s) : s = oobMsg :=
+  upper_conc_no_panic ok H m inv n cmds hvalid sched hsched k hk s hd
 
 end LLFree.C03
